@@ -14,13 +14,14 @@ CONSTANTS
  MCL = 1
  NREQ = 3
  NRESP = 6
- MaxN = 3
+ MaxN = 2
  MaxJ = 2
  PoolFifo = FALSE
  MinChunk = TRUE
  AllowKnown = TRUE
  Filter = TRUE
  AvoidDeadReuse = FALSE
+ TrackIds = FALSE
 VIEW view
 INVARIANTS TypeOK EachServerGetsRequestOnce RequestConservation Routing OrderAtMostOnce CloseObserved Limits RefExact LoanFromFree NoLeak SingleHolder ChunksSufficeReqModuloKnown ChunksSufficeRespModuloKnown
 PROPERTY RoutingAction
